@@ -157,6 +157,14 @@ def persistFuel : Nat := 400
 /-- canonical directory a string names, following symlinks, missing tail kept -/
 def dirC (fs : FS) (cwd : CPath) (p : Bytes) : CPath := (realpath fs cwd p).getD []
 
+/-- `DirMaker.mkdir_p` on a path string: a dangling symbolic link on the way makes every `mkdir`
+    fail (nothing is created through it); otherwise the directories are made at the canonical path -/
+def mkdirPStr (cwd : CPath) (path : Bytes) (mode : Nat) : Prog Res := do
+  let fs ← read
+  match danglingOnPath fs cwd path with
+  | some e => pure (.error e)
+  | none => mkdirP (dirC fs cwd path) mode
+
 inductive ArgOutcome where
   | trashed (trashDir : Bytes) (name : Bytes)
   | skippedMissing | declined
@@ -202,20 +210,18 @@ def trashFileIn (c : PutCfg) (path volume : Bytes) (cand : Candidate) (st : PutS
   match gateCheck fs c volume cand with
   | some r => pure (.error r, st)
   | none =>
-  let tC := dirC fs c.cwd cand.path
-  match ← mkdirP tC 0o700 with
+  match ← mkdirPStr c.cwd cand.path 0o700 with
+  | .error e => pure (.error (.mkdirError e), st)
+  | .ok () =>
+  match ← mkdirPStr c.cwd (pjoin cand.path (b "files")) 0o700 with
+  | .error e => pure (.error (.mkdirError e), st)
+  | .ok () =>
+  match ← mkdirPStr c.cwd (pjoin cand.path (b "info")) 0o700 with
   | .error e => pure (.error (.mkdirError e), st)
   | .ok () =>
   let fs ← read
   let filesC := dirC fs c.cwd (pjoin cand.path (b "files"))
-  match ← mkdirP filesC 0o700 with
-  | .error e => pure (.error (.mkdirError e), st)
-  | .ok () =>
-  let fs ← read
   let infoC := dirC fs c.cwd (pjoin cand.path (b "info"))
-  match ← mkdirP infoC 0o700 with
-  | .error e => pure (.error (.mkdirError e), st)
-  | .ok () =>
   let fs ← read
   let loc := originalLocation fs c.cwd path cand
   let content := formatTrashinfoWith loc c.dateStr
